@@ -177,6 +177,9 @@ def zeros( shape, dtype=float, order = 'C'):
 
     if numpy.isscalar(shape):
         shape = (shape,)
+    else:
+        # a tuple of python ints (a list or an integer ndarray would be ADDED to (D,P) below)
+        shape = tuple(int(s) for s in shape)
 
     if isinstance(dtype,type) or isinstance(dtype,(str, numpy.dtype)) or dtype is None:
         return numpy.zeros(shape, dtype=dtype,order=order)
@@ -187,7 +190,6 @@ def zeros( shape, dtype=float, order = 'C'):
     elif isinstance(dtype, UTPM):
         D,P = dtype.data.shape[:2]
         tmp = numpy.zeros((D,P) + shape ,dtype = dtype.data.dtype)
-        tmp*= dtype.data.flatten()[0]
         return dtype.__class__(tmp)
 
     elif isinstance(dtype, Function):
@@ -205,6 +207,8 @@ def ones( shape, dtype=float, order = 'C'):
 
     if numpy.isscalar(shape):
         shape = (shape,)
+    else:
+        shape = tuple(int(s) for s in shape)
 
     if isinstance(dtype,type) or isinstance(dtype,(str, numpy.dtype)) or dtype is None:
         return numpy.ones(shape, dtype=dtype,order=order)
